@@ -1,22 +1,24 @@
 """C08: check configuration (CONFIG, used by ./check) and manifest entry (MANIFEST)."""
 CONFIG = {'level': 'proof',
- 'assumptions': ['Model/ReaderState.lean mirrors the public methods of decompressor.rs (lazy "load ALL batches" trigger, '
-                 'get_contig_range early return, get_segment cache fill, get_reference_segment, the full-table queries) '
-                 'and collection.rs load_contig_batch / get_no_contigs / get_contig_list / get_sample_desc / '
-                 'get_contig_desc over an abstract archive content; tied by running the state machine (rd-run) on every '
-                 'history the harness executes on the real Decompressor (all histories up to length 3 over the operation '
-                 'alphabet, random ones up to length 30, cloned handles in 4 threads through rd-sys) and comparing result '
-                 'by result, and by comparing the specification function (rd-answer) with fresh-handle answers',
-                 'the abstract archive content (sample names, contig tables per metadata batch of 50, reference per group, '
-                 'decoded segment per (group, in-group id), stream table) is measured on the real archive through a fresh '
-                 'handle per item; decoding of names/descriptors/containers/ZSTD/LZ-diff is outside this property '
-                 '(C03/C09/C12/C13)',
-                 'WF: the metadata batches hold exactly one entry per sample name (the harness checks that the number of '
-                 'collection-contigs parts is ceil(samples/50) on every generated archive)',
-                 'get_contig_length is modelled in the release (wrapping) reading, the first pass of get_contig_range in '
-                 'the checked reading; they differ only on descriptors whose later segments are shorter than k (C07)',
-                 'handles obtained by clone_for_thread share nothing but the read-only file (each re-opens it); OS file '
-                 'reads of an unchanged file are deterministic'],
+ 'assumptions': ['Model/ReaderState.lean mirrors the public methods of decompressor.rs (lazy "load ALL batches" '
+                 'trigger, get_contig_range early return, get_segment cache fill, get_reference_segment, the '
+                 'full-table queries) and collection.rs load_contig_batch / get_no_contigs / get_contig_list / '
+                 'get_sample_desc / get_contig_desc over an abstract archive content; tied by running the state '
+                 'machine (rd-run) on every history the harness executes on the real Decompressor (all histories up '
+                 'to length 3 over the operation alphabet, random ones up to length 30, cloned handles in 4 threads '
+                 'through rd-sys) and comparing result by result, and by comparing the specification function '
+                 '(rd-answer) with fresh-handle answers',
+                 'the abstract archive content (sample names, contig tables per metadata batch of 50, reference per '
+                 'group, decoded segment per (group, in-group id), stream table) is measured on the real archive '
+                 'through a fresh handle per item; decoding of names/descriptors/containers/ZSTD/LZ-diff is outside '
+                 'this property (C03/C09/C12/C13)',
+                 'WF: the metadata batches hold exactly one entry per sample name (the harness checks that the '
+                 'number of collection-contigs parts is ceil(samples/50) on every generated archive)',
+                 'get_contig_length is modelled in the release (wrapping) reading, the first pass of '
+                 'get_contig_range in the checked reading; they differ only on descriptors whose later segments are '
+                 'shorter than k (C07)',
+                 'handles obtained by clone_for_thread share nothing but the read-only file (each re-opens it); OS '
+                 'file reads of an unchanged file are deterministic'],
  'trusted': ['zstd crate: decompress(compress(x)) = x and context-history independence (exercised, not proved)'],
  'timeout': {'quick': 900, 'thorough': 3000}}
 
@@ -24,15 +26,19 @@ MANIFEST = {'category': 'proof',
  'text': 'Lean theorems about Model/ReaderState.lean, the Decompressor handle as a state machine (per-sample contig '
          'tables loaded lazily in batches, the samples_loaded cursor, the reference cache) over an ABSTRACT archive '
          'content (arbitrary sample names, batches, reference/segment decoders): an invariant (metadata untouched or '
-         'exactly the archive table; cache holds only correct references) is preserved by every public operation, and '
-         'under it every result equals answer(archive, operation) - hence for ALL operation sequences the result of a '
-         'query equals the result on a fresh handle, for ALL interleavings of any number of clone_for_thread handles, '
-         'unknown sample/contig names give err and never panic (sole exception proved exactly: get_contig_range with '
-         'start >= end returns Ok([]) before any lookup), reloading is idempotent. The pre-repair behaviours (cumulative '
-         'cursor; get_reference_segment with its own decoding) are modelled as stepOld and proved to violate the '
-         'property. The state machine is executed against the real Decompressor on two-batch archives (>= 51 samples) '
-         'and small ones: all histories up to length 3 over the operation alphabet x {existing, unknown} arguments, '
-         'random histories up to length 30, cloned handles in 4 concurrent threads; the property itself is evaluated on '
-         'the real code (every result vs the same operation on a fresh handle; panics).',
+         'exactly the archive table; cache holds only correct references) is preserved by every public operation, '
+         'and under it every result equals answer(archive, operation) - hence for ALL operation sequences the result '
+         'of a query equals the result on a fresh handle, for ALL interleavings of any number of clone_for_thread '
+         'handles, unknown sample/contig names give err and never panic (sole exception proved exactly: '
+         'get_contig_range with start >= end returns Ok([]) before any lookup), reloading is idempotent. The '
+         'pre-repair behaviours (cumulative cursor; get_reference_segment with its own decoding) are modelled as '
+         'stepOld and proved to violate the property. The state machine is executed against the real Decompressor on '
+         'two-batch archives (>= 51 samples) and small ones: all histories up to length 3 over the operation '
+         'alphabet x {existing, unknown} arguments, random histories up to length 30, cloned handles in 4 concurrent '
+         'threads; the property itself is evaluated on the real code (every result vs the same operation on a fresh '
+         'handle; panics). reader_answers_input: over the abstract content of an archive that the reference writer '
+         "produced, every listing / extraction answer after any history (and on any clone) is the input's data; "
+         'unknown names are errors.',
  'design_ref': 'DESIGN.md §5 C08',
- 'technique': 'Lean 4 invariant proof over a state machine + exhaustive short-history correspondence on real archives'}
+ 'technique': 'Lean 4 invariant proof over a state machine + exhaustive short-history correspondence on real '
+              'archives'}
